@@ -7,48 +7,73 @@ CONFIG = dict(
     namespaces=["MahfModel.Props.C15"],
     shrink_lists=["rules", "tree", "loop", "scope", "ifx"],
     level="proof",
-    rule=("(1) logger: 24 log configurations (no LogConfig / empty / always / never / every-n incl. n = 0 / Not / scripted triggers incl. Err, with_many, clear, "
-          "duplicate entry names, sources missing) x 20 logger placements (before / inside / after a loop, twice in a loop, inside a branch, inside a "
-          "scope, nested loops, two loops, no loop at all) x iteration counts 0..5, plus seeded random programs over "
-          "Block/Loop/Branch/Scope/Logger/SetX/AddX with random rule sets (2500 quick / 100000 thorough); each is a REAL Configuration built "
-          "with the ConfigurationBuilder, configured through State::configure_log, run by optimize_with; the log is exported with "
-          "to_json and to_cbor, both files are decoded and compared with the model's log and compress. (2) template-log: all 21 "
-          "templates x variants x random every-n rule sets (8 rules, duplicate names, a missing source), witness = snapshot of the "
-          "sources before every Logger execution. (3) cfg-template: all 21 templates x 3 variants x 2 bounds through to_ron and "
-          "serde_json, clone, component names; cfg-tpair: all pairs of (variant, bound) per template; cfg-pair: random trees of real "
-          "components and conditions, copy with exactly one parameter value or one node changed (or none). Non-trivial = a logger case "
-          "with at least one rule and a Logger in the tree, or any template/cfg case; distinct = distinct input."),
+    rule=("(1) logger: 27 log configurations (no LogConfig / empty / always / never / every-n incl. n = 0 / Not / scripted triggers incl. Err / "
+          "ChangeOf triggers (need Logger::init), with_many, clear, duplicate entry names, sources missing; rule lists of even length are "
+          "registered through one State::configure_log call per rule) x 20 logger placements (before / inside / after a loop, twice in a "
+          "loop, inside a branch, inside a scope, nested loops, two loops, no loop at all) x iteration counts 0..5, plus seeded random "
+          "programs over Block/Loop/Branch/Scope/Logger/SetX/AddX with random rule sets (2500 quick / 100000 thorough); each is a REAL "
+          "Configuration built with the ConfigurationBuilder, run by optimize_with; the log is exported with to_json and to_cbor, both files "
+          "are decoded and compared with the model's log and compress. (2) template-log: all 21 templates x variants x random every-n rule "
+          "sets (duplicate names, a missing source, with_common), witness = snapshot of the sources before every Logger execution. "
+          "(3) cfg-template: all 21 templates x 4 variants x 2 bounds through to_ron and serde_json, clone, component names; cfg-tpair: all "
+          "pairs of (variant, bound) per template. (4) cfg-pair / cfg-typair-*: trees of REAL components, conditions, lenses and identifiers "
+          "(20 component kinds incl. Linear / Polynomial mappings over 6 input x 8 output lenses and identifier-generic swarm / evaluation / "
+          "mutation components, 7 condition kinds over 6 lenses, Block/Loop/Branch/Scope; u32 values up to 2^32-1, f64 values with 17 "
+          "significant digits) and a copy with exactly one parameter value, exactly one node (type swap, child added / removed, Not added / "
+          "removed, Scope removed, else added / removed) or exactly ONE TYPE PARAMETER changed (lens target at nesting depth up to 4, "
+          "identifier) or nothing; every pair of every lens / identifier menu under every host component inside "
+          "while LessThanN::iterations(100) {..}; each tree goes through Configuration::to_ron, serde_json and the name-preserving serde "
+          "traversal, whose output is read back as a tree of names, parameter values and children. Non-trivial = a logger case with at least "
+          "one rule and a Logger in the tree, or any template/cfg case; distinct = distinct input."),
     nontrivial=lambda inp: (inp.startswith("(lg (rules (") and "(log)" in inp) or inp.startswith(("(tl", "(cfg", "(fl")),
     trusted_base=[
         "serde_json / ciborium / ron back-ends are exercised (files written by the real code are decoded by the harness), not modelled",
         "HashMap iteration order of the per-step export maps is represented by 'any permutation' (export_order_independent)",
-        "harness-defined state X, components SetX/AddX, conditions Const/Script and extractor Named use public traits only",
-        "the harness's exact JSON reader (numbers through Rust's correctly rounded str::parse::<f64>) and canonical value printer"],
+        "harness-defined states X, G<I>, components SetX/AddX, conditions Const/Script/XGe and extractor Named use public traits only",
+        "the harness's exact JSON reader (numbers through Rust's correctly rounded str::parse::<f64>) and canonical value printer",
+        "the harness's name-preserving serde traversal (hcommon::sertree) and the driver's generic reader of its output (readItem): "
+        "struct / newtype / tuple-struct / unit-struct names kept, field names dropped, order kept",
+        "the harness's table from a structured type name to the Rust type it instantiates (a wrong entry shows as a K disagreement on the "
+        "exported name)"],
     assumptions=[
-        "SplitMix64-seeded generators; type_name strings are stable for the pinned toolchain",
-        "identifiers held as plain PhantomData<I> are not parameter values (NormalMutation<A> vs <B> serialise identically by design of the property)"],
+        "SplitMix64-seeded generators; type_name strings are stable for the pinned toolchain (type_name elides a generic argument equal "
+        "to its default: NormalMutation<Global> prints as NormalMutation)",
+        "type names in the generated menus have one generic argument per level (type_name separates several arguments by ', ', the model "
+        "renders ','); paths contain none of '<' '>' ','"],
     timeout_quick=600,
 )
 CONFIG.update(
     level_text=("Lean 4 theorems over the model of Logger/LogConfig/Step/Log and CompressedLog: one logger execution appends exactly the "
-                "specified step (first fired rule of a name wins, null for a missing source, iteration entry in front unless logged by a "
-                "rule or no loop counter exists, nothing if nothing fired; each trigger evaluated exactly once in order; a failing trigger aborts), the log of any "
-                "program of blocks/loops/scopes is the concatenation of its logger executions' steps, decompress(compress log) = log for "
-                "all logs with distinct names per step (which every produced step has), the name table is duplicate-free, any "
-                "permutation of a step's exported entries denotes the same map, the tree serialisation is injective for injective leaf "
-                "encodings, names every node, and a structural clone serialises identically. Tied to /repo by running real "
-                "configurations and decoding the real JSON/CBOR/RON exports (K: model log equals the real log, and the real compressed exports DECODED through their own name table equal the "
-                "model's decoded compress — key numbering and name-table order are representation, not content; name table duplicate-free "
-                "and keys in range are checked; "
-                "O: decoded exports equal the specified sequence of steps as maps)."),
-    level_note=("proof, partial: the theorems are about the model. Configuration-export clauses (every configuration serialises, names "
-                "everything, differs when structure/parameters differ, clone equal): TESTED on all templates and generated tree pairs "
-                "through to_ron / serde_json / the harness's name-preserving serde traversal (hcommon::sertree); the Lean theorems "
-                "ser_injective, ser_names_every_node, clone_serialises_equal are about an ABSTRACT tree serialisation only (its equality "
-                "verdict is compared with the three real serialisers on the generated pairs, nothing more). The serde back-ends (serde_json, ciborium, ron), erased_serde's trait "
-                "objects and HashMap ordering are exercised on the generated cases, not modelled: that every configuration serialises "
-                "(Ok) and that real exports differ for differing configurations is checked per case, not proved. JSON cannot carry "
-                "non-finite floats: serde_json writes null (modelled as jsonValue; known finding json_nonfinite_violates, theorem "
-                "json_export_partial for logs of JSON-representable values). A Logger outside any loop logs its step "
-                "without an iteration entry (fix 5b69ade; logger_step covers states with and without a counter)."),
+                "specified step (first fired rule of a name wins and its value — or the explicit null of a missing source — is the entry, "
+                "iteration entry in front unless logged by a rule or no loop counter exists, nothing if nothing fired "
+                "(nothing_fires_adds_nothing) and one step as soon as one trigger fires (some_trigger_fires_adds_one); each trigger evaluated "
+                "exactly once in order; a failing trigger aborts), the log of any program of blocks/loops/scopes is the concatenation of its "
+                "logger executions' steps, decompress(compress log) = log for all logs with distinct names per step (which every produced "
+                "step has), the name table is duplicate-free, any permutation of a step's exported entries denotes the same map. "
+                "Configuration export: type names as std::any::type_name prints them (path + generic arguments to any depth) are "
+                "uniquely readable (type_name_injective), hence the serialisation of a tree whose leaves carry their FULL type name is "
+                "injective without side conditions (ser_full_injective: trees differing in a node, nesting, a parameter value or only in a "
+                "type parameter of a lens target / identifier serialise differently); what the code writes determines the tree up to "
+                "type parameters held as plain PhantomData (ser_code_up_to_phantom, ser_code_injective_partial, pair_model_holds_partial), "
+                "and that exclusion is a recorded defect (phantom_identifier_violates); names every node; a structural clone serialises "
+                "identically. Tied to /repo by running real configurations and decoding the real JSON/CBOR/RON exports (K: model log equals "
+                "the real log as a sequence of name->value maps, the real compressed exports DECODED through their own name table equal the "
+                "model's decoded compress; for configuration pairs the tree of names / parameter values / children READ BACK from the real "
+                "serialisation equals the described tree with every type name rendered in full, and the equal/unequal verdicts of to_ron, "
+                "serde_json and the traversal equal the model's; O: decoded exports equal the specified sequence of steps as maps; every "
+                "configuration serialises, exports are equal exactly when the configurations are the same, a clone exports identically, "
+                "the export names every component with its parameter values and nesting)."),
+    level_note=("proof, partial: the theorems are about the model. Configuration export: the leaf level (type names, parameter values, "
+                "PhantomData fields) and the tree shape are modelled and tied per generated tree by reading the real export back; the "
+                "per-component Serialize derives are NOT modelled in Lean — the expected shape of each component kind is part of the "
+                "harness's description of the tree and is confirmed against the real export on every case (K). That every configuration "
+                "serialises (Ok) is checked per case and for all templates, not proved. The serde back-ends (serde_json, ciborium, ron), "
+                "erased_serde's trait objects and HashMap ordering are exercised, not modelled. Known findings: (1) JSON cannot carry "
+                "non-finite floats: serde_json writes null (json_nonfinite_violates, json_export_partial); (2) the six mutation components "
+                "of src/components/mutation/common.rs hold their identifier as plain PhantomData<I>, so NormalMutation::<A> and ::<B> export "
+                "identically (site cfg-typair-phantom [collision], phantom_identifier_violates, ser_code_injective_partial). A Logger "
+                "outside any loop logs its step without an iteration entry (fix 5b69ade). The order of entries INSIDE a step is treated as "
+                "representation in K as well as O (the exports are hash maps; the property fixes no order). ChangeOf triggers are modelled "
+                "per trigger, which is exact for at most one such trigger per rule set in programs without a Scope; the driver refuses "
+                "other inputs."),
 )
